@@ -662,7 +662,9 @@ class CompiledType(compiler.CompiledType):
         if indent is not None:
             indent_xml(element, indent * " ")
 
-        return ElementTree.tostring(element)
+        # A literal CR would be normalised to LF by every XML reader
+        # (XML 1.0, 2.11).
+        return ElementTree.tostring(element).replace(b'\r', b'&#13;')
 
     def decode(self, data):
         element = ElementTree.fromstring(data.decode('utf-8'))
